@@ -75,14 +75,16 @@ add("C03",
     "Coq proof (zonotope = hull of corner images, by induction on sources) + certificate checkers proved sound and run by vm_compute on real answers", "DESIGN.md §5 C03")
 
 add("C06",
-    "(F) the Q-model of the basic-solution enumeration keeps only in-bound solutions of A'x=b', so (when any is kept) both reported ends of every source are attained by "
-    "in-bound solutions, min<=max, ends within bounds. (C) weak-LP-duality theorems: a multiplier vector bounds x_k over the WHOLE solution polytope, so certified ends are "
-    "the exact extents and every solution lies between them. Tie: (Xmin, Xmax) of ReceptorEstimator.range_of_solutions / dreye.range_of_solutions agree with the exact "
-    "Cramer-rule enumeration evaluated in the Coq VM, HiGHS dual vectors certify both ends of every source, every spaced solution is re-checked (bounds, reproduction), "
+    "(F) EXACTNESS of the Q-model of the basic-solution enumeration, for all sizes: soundness (only in-bound solutions of A'x=b' are kept, so both reported ends of every source are "
+    "attained, min<=max, ends within bounds) AND completeness (enumeration_complete / range_is_exact: whenever the capture matrix has m independent columns, every in-bound solution "
+    "is bracketed, per source and in both directions, by a kept basic solution -- the fundamental theorem of linear programming for this polytope, proved from scratch over Q: "
+    "Gaussian elimination, Steinitz exchange, purification; 1400 lines, no axioms); the enumeration never aborts. (C) weak-LP-duality theorems: a multiplier vector bounds x_k over "
+    "the WHOLE solution polytope (independent per-case certificate of both ends). Tie: (Xmin, Xmax) of ReceptorEstimator.range_of_solutions / dreye.range_of_solutions agree with the "
+    "exact elimination-based enumeration evaluated in the Coq VM, HiGHS dual vectors certify both ends of every source, every spaced solution is re-checked (bounds, reproduction), "
     "out-of-gamut contract (raise / best fit as both ends) judged with separation certificates.",
-    TRUST + "np.linalg.solve and the qhull in-gamut gate are opaque (results re-derived / certified). Completeness of the vertex enumeration is certified per instance by LP "
-    "duals, not proved in general (stretch goal of DESIGN §5 C06.3 not done). _spaced_solutions is judged only through its results.",
-    "Coq proof (guarded enumeration, running min/max) + LP-duality certificate checker proved sound, run by vm_compute on real outputs", "DESIGN.md §5 C06")
+    TRUST + "np.linalg.solve and the qhull in-gamut gate are opaque (results re-derived / certified); the model solves exactly by elimination (Model/Gauss.v) and accepts without the "
+    "code's 1e-9 round-off tolerance (absorbed by the comparison tolerance). _spaced_solutions is judged only through its results.",
+    "Coq proof (soundness and completeness of the vertex enumeration over Q, all sizes) + LP-duality certificate checker proved sound, run by vm_compute on real outputs", "DESIGN.md §5 C06, §11.2")
 
 add("C16",
     "(F, over R, every dimension) the closed form of the simplex matrix satisfies the recursion of the code and the recursion determines it uniquely; its rows form a regular "
